@@ -35,6 +35,9 @@ Next == \/ sc.stage = 0 /\ \E sh \in Shapes, p1 \in Places : sc' = [stage |-> 1,
                sc' = [stage |-> 2, fam |-> "shape", sh |-> sc.sh, f |-> ShapeOf(sc.sh, sc.p1, p2, p3, q, s)]
         \/ sc.stage = 0 /\ \E ft \in Faults, q \in BOOLEAN : sc' = [stage |-> 2, fam |-> "fault", fault |-> ft, quoted |-> q]
         \/ sc.stage = 0 /\ \E p1 \in Places, q \in BOOLEAN, s \in Seps : sc' = [stage |-> 2, fam |-> "a2ml", place |-> p1, quoted |-> q, sep |-> s]
+        \* the include file in another text encoding than the main file (the loader decodes every file on its own)
+        \/ sc.stage = 0 /\ \E enc \in {"utf8bom", "utf16le_bom", "utf16be_bom", "utf32le_bom", "utf16le"} :
+               sc' = [stage |-> 2, fam |-> "shape", sh |-> "flat1", f |-> ShapeOf("flat1", "same", "same", "same", TRUE, "/"), enc |-> enc]
         \* an include inside an IF_DATA block (described by the A2ML of the file, or by nothing)
         \/ sc.stage = 0 /\ \E p1 \in Places, q \in BOOLEAN, d \in BOOLEAN :
                sc' = [stage |-> 2, fam |-> "ifdata", place |-> p1, quoted |-> q, sep |-> "/", described |-> d]
@@ -46,6 +49,7 @@ IdealOK == (sc.stage = 2 /\ sc.fam = "shape") => ReloadEqualIdeal(sc.f)
 ImplOK == (sc.stage = 2 /\ sc.fam = "shape") => (ReloadEqualImpl(sc.f) /\ (sc.sh # "empty_inc" => DirectivesKept(sc.f)))
 Emit == sc.stage = 2 =>
           IF sc.fam = "shape"
-          THEN PrintT(<<"CASE", ToJson([fam |-> "shape", sh |-> sc.sh, f |-> sc.f, flat |-> Flatten(sc.f), main |-> MainItems(sc.f)])>>)
+          THEN PrintT(<<"CASE", ToJson([fam |-> "shape", sh |-> sc.sh, f |-> sc.f, flat |-> Flatten(sc.f), main |-> MainItems(sc.f),
+                                        enc |-> IF "enc" \in DOMAIN sc THEN sc.enc ELSE "utf8"])>>)
           ELSE PrintT(<<"CASE", ToJson(sc)>>)
 =============================================================================
